@@ -94,7 +94,7 @@ pub fn targets_from(keys: &[String], dir: &str) -> Vec<String> {
     keys.iter().map(|t| gen::rel_url(t, dir)).filter(|u| !u.is_empty()).collect()
 }
 
-fn library(rng: &mut Rng, hostile: bool, nested: bool, max_notes: usize) -> Vec<(String, String)> {
+fn library(rng: &mut Rng, hostile: bool, nested: bool, max_notes: usize, clean: bool) -> Vec<(String, String)> {
     let n = rng.range(1, max_notes);
     let keys = keys_for(rng, n, nested);
     let mut notes = vec![];
@@ -102,17 +102,32 @@ fn library(rng: &mut Rng, hostile: bool, nested: bool, max_notes: usize) -> Vec<
         let dir = gen::dir_of(k);
         let targets = targets_from(&keys, &dir);
         let ctx = Ctx { targets: &targets, hostile, max_depth: 2 };
-        let mut doc = if rng.chance(1, 3) { gen::document(rng, &ctx) } else { vec![GB::Heading(1, vec![GI::Word(gen::word(rng, false))])] };
+        let mut doc = if !clean && rng.chance(1, 3) { gen::document(rng, &ctx) } else { vec![GB::Heading(1, vec![GI::Word(gen::word(rng, false))])] };
         for _ in 0..rng.range(1, 4) {
-            let extra = linky(rng, &ctx, 0);
+            let mut extra = linky(rng, &ctx, 0);
+            // clean libraries stay outside every known class: no quotes
+            while clean && extra.iter().any(has_quote) { extra = linky(rng, &ctx, 0); }
             let at = rng.range(0, doc.len());
             for (i, b) in extra.into_iter().enumerate() { doc.insert((at + i).min(doc.len()), b); }
         }
         let st = if hostile || rng.chance(1, 3) { Style::random(rng) } else { Style::plain() };
         let fm = if rng.chance(1, 10) { Some("title: t\n") } else { None };
-        notes.push((k.clone(), gen::document_src(&doc, &st, fm)));
+        let mut text = gen::document_src(&doc, &st, fm);
+        if clean {
+            // ... and no url whose reading depends on the directory
+            text = text.replace("(./a)", "(a)").replace("[[./a", "[[a").replace("../up", "up");
+        }
+        notes.push((k.clone(), text));
     }
     notes
+}
+
+fn has_quote(b: &GB) -> bool {
+    match b {
+        GB::Quote(_) => true,
+        GB::Bullet(items) | GB::Ordered(_, items) => items.iter().flatten().any(has_quote),
+        _ => false,
+    }
 }
 
 fn generate(rng: &mut Rng, thorough: bool) -> Vec<Value> {
@@ -121,10 +136,11 @@ fn generate(rng: &mut Rng, thorough: bool) -> Vec<Value> {
     for i in 0..n {
         let (hostile, nested, kind) = match i % 8 {
             0 | 4 => (false, false, "flat"),
+            2 | 6 => (false, false, "flat-clean"),
             7 => (true, true, "hostile-nested"),
             _ => (false, true, "nested"),
         };
-        let notes = library(rng, hostile, nested, 5);
+        let notes = library(rng, hostile, nested, 5, kind == "flat-clean");
         let ext = if rng.chance(1, 4) { ".md" } else { "" };
         out.push(json!({"ext": ext, "kind": kind, "notes": notes.iter().map(|n| json!([n.0, n.1])).collect::<Vec<_>>()}));
     }
